@@ -85,6 +85,18 @@ class Check:
         if count < minimum:
             raise AnalysisError("inventory %s = %d below the floor %d confirmed on the reference tree" % (what, count, minimum))
 
+    def failed(self, rule, construct, e, loc="", prefix="analysis error"):
+        """an AnalysisError caught by a rule: a violation if the construct it met is itself the defect (for this
+        property), otherwise an undecided obligation"""
+        v = getattr(e, "violation", None)
+        if v is not None and len(v) > 4 and self.pid not in v[4]:
+            v = None
+        if v is not None:
+            if not any(o.status == "violation" and o.rule == v[0] and o.construct == v[1] and o.key == v[3] for o in self.obs):
+                self.violation(v[0], v[1], v[2], loc, key=v[3])
+        else:
+            self.undecided(rule, construct, "%s: %s" % (prefix, e), loc)
+
     def guarded(self, rule, construct, fn, loc=""):
         """run fn(); AnalysisError becomes an undecided obligation (fail closed)"""
         try:
